@@ -530,7 +530,7 @@ impl Property for C02 {
                     _ => "?".into(),
                 };
                 // a mismatch inside a contained type shows up in its containers too: report the root
-                let contained_bad = (0..prog.decls.len()).any(|j| j != idx && contains_by_value(&prog, idx, j) && obs.c_facts.get(&format!("size:{j}")) != side.facts.get(&format!("size:{j}")));
+                let contained_bad = (0..prog.decls.len()).any(|j| j != idx && contains_by_value(&prog, idx, j) && matches!((obs.c_facts.get(&format!("size:{j}")), side.facts.get(&format!("size:{j}"))), (Some(a), Some(b)) if a != b));
                 if contained_bad {
                     continue;
                 }
